@@ -261,6 +261,7 @@ func defaultFuncs() map[string]string {
 		"string": "string", "number": "number", "bool": "bool",
 		"p1": "id", "p2": "id", "boom": "boom", "noret": "noret",
 		"dice": "dice", "random_range": "random_range",
+		"cstr": "idstr", "cbool": "idbool", "cint": "idint",
 	}
 }
 
